@@ -493,12 +493,37 @@ theorem function_uncertainty_landmarks_ok :
       gpType := .none, withUnc := true, opt := .lbfgsb, kept := 1, sigma := .scalar }
       = .ok .sparseCholesky 6 4 .landmarks := by decide
 
-/-- F3: a per-cell `sigma` with 4 landmarks on 6 cells is refused. -/
-theorem function_vector_sigma_refused :
+/-- F3 (after /repo 20d7957): a per-cell `sigma` with 4 landmarks on 6 cells is accepted — the vector is
+    the noise of the cells, whatever the number of landmarks — and gives the Landmarks predictor. -/
+theorem function_vector_sigma_landmarks_ok :
     resolve {
       est := .function, n := 6, nLandmarks := none, landmarks := some 4, rank := .none,
       gpType := .none, withUnc := false, opt := .lbfgsb, kept := 1, sigma := .vecN }
-      = .refused .sigmaShape := by decide
+      = .ok .sparseCholesky 6 4 .landmarks := by decide
+
+/-- The form of a valid `sigma` (a scalar or one entry per cell) does not enter the outcome of the function
+    estimator: every number of landmarks (`m < n`, `m = n`, `m > n`), every type, with or without
+    predictive uncertainty. -/
+theorem function_sigma_form_irrelevant (c : Config) (hest : c.est = .function) :
+    resolve { c with sigma := .vecN } = resolve { c with sigma := .scalar } := by
+  have h1 : ({ c with sigma := SigmaForm.vecN } : Config).est = .function := hest
+  have h2 : ({ c with sigma := SigmaForm.scalar } : Config).est = .function := hest
+  rw [resolve_function h1, resolve_function h2]
+  unfold resolveFunction functionPredictor
+  simp [SigmaForm.isMat]
+  rfl
+
+/-- With the cells as landmarks (`gp_type='fixed'`, 6 landmarks on 6 cells) and with more landmarks than
+    cells under a forced sparse type, the per-cell `sigma` is accepted as well. -/
+theorem function_vector_sigma_fixed_ok :
+    resolve {
+      est := .function, n := 6, nLandmarks := none, landmarks := some 6, rank := .none,
+      gpType := .str ['f','i','x','e','d'], withUnc := true, opt := .lbfgsb, kept := 1, sigma := .vecN }
+      = .ok .fixed 6 6 .landmarks ∧
+    resolve {
+      est := .function, n := 6, nLandmarks := none, landmarks := some 8, rank := .none,
+      gpType := .str ['f','i','x','e','d'], withUnc := true, opt := .lbfgsb, kept := 1, sigma := .vecN }
+      = .ok .fixed 6 8 .landmarks := by decide
 
 /-- F4: a two-dimensional `sigma` is refused. -/
 theorem function_matrix_sigma_refused :
